@@ -296,6 +296,7 @@ type c13Aux struct {
 	NoPreface bool
 	Hold      bool
 	Limit     bool // concurrency-limit scenario
+	Graceful  bool // the client has sent GOAWAY(NO_ERROR) after the set-up: the server is shutting the connection down gracefully
 	LimitID   uint32
 }
 
@@ -391,11 +392,26 @@ func drawC13(t *rapid.T) *Case {
 	aux.Pre = []string{tagHalf, tagOpen}
 	aux.HalfID, aux.OpenID, aux.ResetID = x.half, x.open, x.reset
 
+	// graceful shutdown: the client announces that it will open no more streams; the server
+	// answers with its own GOAWAY(NO_ERROR) and goes on serving the streams that exist.  Frames
+	// on higher stream ids may be discarded from here on (RFC 7540 6.8), so the probes that
+	// follow stay on existing streams and on stream 0.
+	graceful := drawBool(t, "graceful", 15)
+	gracefulKinds := []int{0, 1, 2, 3, 5, 6, 7, 8, 9, 17, 18, 19} // (the stream-level ones among them are never answered with a connection error)
+	gracefulConnKinds := []int{33, 37, 38, 39, 40, 41, 42, 45, 46, 47, 48}
+	if graceful {
+		aux.Graceful = true
+		write(Frame{Type: FGoAway, Payload: make([]byte, 8)}, PingFrame(false, [8]byte{0xfc, 2}))
+		steps = append(steps, Step{Kind: "h2ping", Streams: []uint32{2}})
+	}
 	// probes
 	n := rapid.IntRange(1, 4).Draw(t, "nprobes")
 	usedHalf, usedOpen, usedAck := false, false, false
 	for i := 0; i < n; i++ {
 		k := rapid.IntRange(0, 31).Draw(t, "probe")
+		if graceful {
+			k = gracefulKinds[k%len(gracefulKinds)]
+		}
 		if k == 10 {
 			// the server has sent exactly one SETTINGS frame: only one ACK is due
 			if usedAck {
@@ -428,6 +444,12 @@ func drawC13(t *rapid.T) *Case {
 		if (usedHalf && (k == 38 || k == 39 || k == 41 || k == 42)) || (usedOpen && (k == 43 || k == 45)) {
 			k = 34
 		}
+		if graceful {
+			k = gracefulConnKinds[k%len(gracefulConnKinds)]
+			if usedHalf && (k == 38 || k == 39 || k == 41 || k == 42) {
+				k = 37
+			}
+		}
 		pr := buildProbe(t, x, k)
 		aux.ConnIdx = len(aux.Probes)
 		aux.Probes = append(aux.Probes, pr)
@@ -437,10 +459,18 @@ func drawC13(t *rapid.T) *Case {
 		write(HeadersFrames(x.next+100, x.enc.Block(x.fields(aux.After, "GET")), true, nil, -1, nil)...)
 		steps = append(steps, Step{Kind: "readeof"})
 	} else {
-		aux.Final = x.tag()
-		id := x.newID()
-		write(x.request(id, aux.Final, "GET", true, false)...)
-		steps = append(steps, Step{Kind: "h2await", Streams: []uint32{id}})
+		if !graceful {
+			// (after the client's GOAWAY a new stream may be discarded)
+			aux.Final = x.tag()
+			id := x.newID()
+			write(x.request(id, aux.Final, "GET", true, false)...)
+			steps = append(steps, Step{Kind: "h2await", Streams: []uint32{id}})
+		}
+		if graceful {
+			// everything the server has to say about the probes is out once this PING is acknowledged
+			write(PingFrame(false, [8]byte{0xfc, 3}))
+			steps = append(steps, Step{Kind: "h2ping", Streams: []uint32{3}})
+		}
 		if !usedOpen {
 			// finish the open stream's body: it must still be accepted
 			steps = append(steps, Step{Kind: "write", Pieces: [][]byte{FramesBytes(DataFrame(x.open, []byte("-rest"), true, -1))}})
@@ -456,7 +486,7 @@ func drawC13(t *rapid.T) *Case {
 	for _, pr := range aux.Probes {
 		names = append(names, fmt.Sprintf("[%s] %s", pr.Kind, pr.Name))
 	}
-	c.Summary = fmt.Sprintf("streams: half-closed=%d open=%d client-reset=%d; probes: %s; final=%q after=%q", x.half, x.open, x.reset, strings.Join(names, " | "), aux.Final, aux.After)
+	c.Summary = fmt.Sprintf("streams: half-closed=%d open=%d client-reset=%d; client GOAWAY(NO_ERROR) after the set-up=%v; probes: %s; final=%q after=%q", x.half, x.open, x.reset, graceful, strings.Join(names, " | "), aux.Final, aux.After)
 	c.Nontrivial = func(w *World, c *Case) bool { return w.Clients[0].HandshakeOK && len(w.Clients[0].Recv) > 0 }
 	return c
 }
@@ -530,6 +560,10 @@ func oracleC13(w *World, c *Case) {
 	}
 	desc := c.Summary
 	expectConn := aux.ConnIdx >= 0
+	// graceful shutdown + connection-level violation: the error GOAWAY cannot be sent any more
+	// (one GOAWAY is out); the connection is torn down instead, with the same consequences for
+	// what was queued behind it
+	gracefulDown := aux.Graceful && expectConn && connErr == nil && cl.ReadEnded
 	connExplained := false
 	probeStreams := map[uint32]bool{}
 	for _, pr := range aux.Probes {
@@ -554,7 +588,7 @@ func oracleC13(w *World, c *Case) {
 				w.Probe("stream_error_answered_as_connection_error")
 			case pr.OrLocal && streams[pr.Stream] != nil && strings.HasPrefix(streams[pr.Stream].Status, "4"):
 				w.Probe("malformed_request_answered_locally")
-			case connErr != nil && (expectConn || laterExplains(aux.Probes, i, connCode)):
+			case gracefulDown, connErr != nil && (expectConn || laterExplains(aux.Probes, i, connCode)):
 				// overtaken by a connection error caused by a later frame of the script:
 				// a queued RST_STREAM may be dropped when the connection is torn down
 			default:
@@ -564,7 +598,12 @@ func oracleC13(w *World, c *Case) {
 			if i != aux.ConnIdx {
 				continue
 			}
-			if connErr == nil {
+			if gracefulDown {
+				// the server's GOAWAY(NO_ERROR) was out already; it has torn the connection down
+				// although a request was still in flight (its handler is parked): that is how a
+				// connection error shows after a GOAWAY
+				w.Probe("connection_error_after_graceful_goaway_closed_the_connection")
+			} else if connErr == nil {
 				w.Violate("connection_error_missing", "connection_error_missing", "probe %q drew no GOAWAY with an error code (admissible %v); frames received: %d | %s", pr.Name, pr.Codes, len(cl.Recv), desc)
 			} else if !inCodes(connCode, pr.Codes) && !connExplained {
 				w.Violate("wrong_connection_error_code", "wrong_connection_error_code", "probe %q: GOAWAY code %d, RFC admits %v | %s", pr.Name, connCode, pr.Codes, desc)
@@ -575,14 +614,14 @@ func oracleC13(w *World, c *Case) {
 			// a frame on a closed stream: ignoring it or a stream error are both fine,
 			// a connection error is not (judged below: no conn probe => no GOAWAY error)
 		case "legal":
-			if pr.Ping != nil && !pingAcks[*pr.Ping] && connErr == nil {
+			if pr.Ping != nil && !pingAcks[*pr.Ping] && connErr == nil && !gracefulDown {
 				w.Violate("ping_not_acked", "ping_not_acked", "PING %x was not acknowledged with the same payload | %s", *pr.Ping, desc)
 			}
 		}
 		if pr.BadTag != "" && len(by[pr.BadTag]) > 0 {
 			w.Violate("handler_for_illegal_frame", "handler_for_illegal_frame", "probe %q: request %s reached a handler | %s", pr.Name, pr.BadTag, desc)
 		}
-		if pr.GoodTag != "" && len(by[pr.GoodTag]) == 0 && connErr == nil {
+		if pr.GoodTag != "" && len(by[pr.GoodTag]) == 0 && connErr == nil && !gracefulDown {
 			w.Violate("legal_request_not_served", "legal_request_not_served", "probe %q: well-formed request %s never reached a handler | %s", pr.Name, pr.GoodTag, desc)
 		}
 	}
@@ -603,7 +642,7 @@ func oracleC13(w *World, c *Case) {
 	for _, tag := range aux.Pre {
 		// a request whose stream was reset afterwards (probe, connection error) may have
 		// been cancelled on its way to the back-end; it only must have been served otherwise
-		if probeStreams[tagStream[tag]] || connErr != nil {
+		if probeStreams[tagStream[tag]] || connErr != nil || gracefulDown {
 			continue
 		}
 		if len(by[tag]) == 0 {
@@ -616,7 +655,7 @@ func oracleC13(w *World, c *Case) {
 		}
 	}
 	// after a connection error nothing more is served; GOAWAY covers what was acted on
-	if aux.After != "" && len(by[aux.After]) > 0 && connErr != nil {
+	if aux.After != "" && len(by[aux.After]) > 0 && (connErr != nil || gracefulDown) {
 		w.Violate("served_after_connection_error", "served_after_connection_error", "request %s sent after the connection error reached a handler | %s", aux.After, desc)
 	}
 	if connErr != nil {
@@ -666,7 +705,7 @@ func c13TagStreams(aux *c13Aux, c *Case) map[string]uint32 {
 
 func init() {
 	register(&CheckDef{ID: "C13", Level: "exploration", Engine: "A", Draw: drawC13,
-		Rule: "a raw-frame HTTP/2 client first puts one stream into each state (half-closed (remote) with the handler parked in the back-end, open with a partial body, closed by a client RST_STREAM; idle ids above), so that the server-side state is determined by the client's frames alone, then sends 1-4 probes drawn from a catalogue of 46 (state, frame) situations - 14 legal ones that must never draw an error (unknown frame types and settings, PING, PRIORITY / WINDOW_UPDATE / RST_STREAM on closed streams, padded and empty DATA, trailers, CONTINUATION with padding and priority), 18 stream-level violations (frames on half-closed / reset streams, zero and overflowing WINDOW_UPDATE, self-dependency, malformed requests of 9 kinds, content-length mismatch, ...), 14 connection-level violations (even / reused ids, frames on idle streams, stream-0 / non-0 association, wrong lengths, out-of-range SETTINGS, PUSH_PROMISE, broken CONTINUATION sequences, undecodable header block, oversized frame), plus two special scenarios (first frame not SETTINGS; 251 parked streams against the advertised limit of 250); then a closing request (must be served) or a request after the connection error (must not be). Frame delivery order relative to handlers is the controller's. Oracle (refh2sm, from RFC 7540/9113): reaction in the admissible set; handler started iff required; GOAWAY last-stream-id covers every request acted on; legal traffic draws no error. Non-trivial: the server answered at least one frame. Distinct: distinct controller action-label sequences."})
+		Rule: "a raw-frame HTTP/2 client first puts one stream into each state (half-closed (remote) with the handler parked in the back-end, open with a partial body, closed by a client RST_STREAM; idle ids above), so that the server-side state is determined by the client's frames alone, then sends 1-4 probes drawn from a catalogue of 46 (state, frame) situations - 14 legal ones that must never draw an error (unknown frame types and settings, PING, PRIORITY / WINDOW_UPDATE / RST_STREAM on closed streams, padded and empty DATA, trailers, CONTINUATION with padding and priority), 18 stream-level violations (frames on half-closed / reset streams, zero and overflowing WINDOW_UPDATE, self-dependency, malformed requests of 9 kinds, content-length mismatch, ...), 14 connection-level violations (even / reused ids, frames on idle streams, stream-0 / non-0 association, wrong lengths, out-of-range SETTINGS, PUSH_PROMISE, broken CONTINUATION sequences, undecodable header block, oversized frame), plus two special scenarios (first frame not SETTINGS; 251 parked streams against the advertised limit of 250) and, in 15% of the runs, a client GOAWAY(NO_ERROR) after the set-up, so that the probes meet a connection in graceful shutdown (a connection error then shows as an error GOAWAY or as the connection torn down under the parked request); then a closing request (must be served) or a request after the connection error (must not be). Frame delivery order relative to handlers is the controller's. Oracle (refh2sm, from RFC 7540/9113): reaction in the admissible set; handler started iff required; GOAWAY last-stream-id covers every request acted on; legal traffic draws no error. Non-trivial: the server answered at least one frame. Distinct: distinct controller action-label sequences."})
 }
 
 func laterExplains(ps []*probe, i int, connCode uint32) bool {
